@@ -10,54 +10,10 @@ from ..util import (require_func, execute_sites, calls_in, call_attr, is_name, c
 from .c02 import feature_loop
 
 
-def _strip_decode(e):
-    while isinstance(e, ast.Call) and isinstance(e.func, ast.Attribute) and e.func.attr in ("decode", "encode"):
-        e = e.func.value
-    return e
 
 
-def _field_of(e, func=None, depth=0):
-    """Which Feature field a tuple element projects.  Local names are
-    followed to their definition; a call of a local one-argument helper or
-    lambda (e.g. an identity/decode wrapper) is looked through."""
-    e = _strip_decode(e)
-    if func is not None and isinstance(e, ast.Name) and depth < 4:
-        from ..util import resolve_name
-        r = resolve_name(e, func)
-        if r is not e:
-            return _field_of(r, func, depth + 1)
-    if isinstance(e, ast.Attribute) and is_name(e.value, "self"):
-        return e.attr, "plain"
-    if isinstance(e, ast.Call) and call_attr(e) == "_jsonify" and len(e.args) == 1:
-        fld, how = _field_of(e.args[0], func, depth + 1)
-        if fld is not None and how == "plain":
-            return fld, "json"
-    if isinstance(e, ast.Call) and call_attr(e) == "calc_bin" and not e.args and not e.keywords:
-        return "bin", "calc"
-    if isinstance(e, ast.Call) and isinstance(e.func, ast.Name) and len(e.args) == 1 and not e.keywords and func is not None \
-            and e.func.id in func.locals and depth < 4:
-        return _field_of(e.args[0], func, depth + 1)
-    return None, norm(e)
 
 
-def returned_tuples(func):
-    """Tuple displays returned by a function, following one level of local
-    list/tuple building (`x = [...]; return tuple(x)`)."""
-    out = []
-    from ..model import walk_own
-    for r in [n for n in walk_own(func.node) if isinstance(n, ast.Return) and n.value is not None]:
-        v = r.value
-        if isinstance(v, ast.Call) and is_name(v.func, "tuple") and v.args:
-            v = v.args[0]
-        if isinstance(v, ast.Name):
-            a = single_assignment(func.node, v.id)
-            if a is not None:
-                v = a
-        if isinstance(v, (ast.Tuple, ast.List)):
-            out.append((r, v))
-        else:
-            out.append((r, None))
-    return out
 
 
 def r1(ctx):
@@ -191,46 +147,8 @@ def populate_methods(ctx):
     return out
 
 
-def inserting_functions(ctx):
-    """Functions that execute constants._INSERT directly."""
-    out = set()
-    for s in execute_sites(ctx):
-        if norm(s.call.args[0]).split(".")[-1] == "_INSERT":
-            out.add(s.func.qual)
-    return out
 
 
-def r2(ctx):
-    meths = populate_methods(ctx)
-    ctx.floor("R2", len(meths), 2, "_populate_from_lines implementations")
-    inserters = inserting_functions(ctx)
-    for m in meths:
-        ctx.touch(m)
-        loop, fv = feature_loop(ctx, m)
-        cfg = cfg_of(m)
-        ins_calls = []
-        for c in calls_in(m.node):
-            fs, _d = ctx.proj.resolve_call(c, m)
-            if any(g.qual in inserters for g in fs) and c.args and is_name(c.args[0], fv) and loop in list(parents(c)):
-                ins_calls.append(c)
-        primary = [c for c in ins_calls if enclosing(c, ast.ExceptHandler) is None]
-        ctx.ob("R2", len(primary) == 1, "each parsed item has exactly one unconditional insert attempt in %s" % m.qual.split(".")[1],
-               node=loop, func=m, sig="%d primary insert(s) of the loop item" % len(primary))
-        if not primary:
-            continue
-        head = cfg.node_for(loop).id
-        ins_nodes = {cfg.node_for(c).id for c in primary}
-        first = [t for t, l in cfg.succ[head] if l == "true"]
-        bypass = False
-        for t in first:
-            if t in ins_nodes:
-                continue
-            reach = cfg.reachable(t, avoid=ins_nodes, include_start=True)
-            if head in reach or any(cfg.nodes[n].kind == "exit" for n in reach) or \
-                    any(l == "false" and n == head for n in reach for _t, l in cfg.succ[n] if False):
-                bypass = True
-        ctx.ob("R2", not bypass, "every pass through the import loop reaches the insert of the item (no continue/break/return before it)",
-               node=primary[0], func=m, sig="insert %s" % ("on every loop path" if not bypass else "can be bypassed inside the loop"))
 
 
 def r3(ctx):
